@@ -20,7 +20,7 @@ func init() {
 	opts := func(string) simrt.Options { return simrt.Options{MaxSteps: 100000, RotateMaps: true} }
 	runner.Register("C01", runner.Scenario{Name: "executor", Options: opts, Body: func(c *runner.Ctx) { body(c, false) }})
 	runner.Register("C16", runner.Scenario{Name: "executor-faults", Options: opts, Body: func(c *runner.Ctx) { body(c, true) }})
-	park := func(string) simrt.Options { return simrt.Options{MaxSteps: 100000, RotateMaps: true, ParkPermille: 10, MapPausePermille: 200} }
+	park := func(string) simrt.Options { return simrt.Options{MaxSteps: 100000, RotateMaps: true, ParkPermille: 10, MapPausePermille: 200, SpawnPausePermille: 30} }
 	runner.Register("C01", runner.Scenario{Name: "executor-preempt", Options: park, Body: func(c *runner.Ctx) { body(c, false) }})
 	runner.Register("C16", runner.Scenario{Name: "executor-faults-preempt", Options: park, Body: func(c *runner.Ctx) { body(c, true) }})
 }
